@@ -104,8 +104,8 @@ def main():
             shutil.rmtree(bd, ignore_errors=True)
             t0 = time.time()
             rc, o = sh(["./check", p, "--tier", tier], cwd="/verif", env=dict(ENV, VERIF_REPO=wt, VERIF_BUILD=bd), timeout=7200)
-            lines = [l for l in o.splitlines() if l.startswith(("VIOLATION", "OK", "KNOWN-FINDING"))]
-            out["checks"][p] = dict(rc=rc, lines=lines[:6], wall=round(time.time() - t0))
+            lines = [l for l in o.splitlines() if l.startswith(("VIOLATION", "OK"))][:4] + [l[:160] for l in o.splitlines() if l.startswith("KNOWN-FINDING")][:3]
+            out["checks"][p] = dict(rc=rc, lines=lines, wall=round(time.time() - t0))
             shutil.rmtree(bd, ignore_errors=True)
         print(json.dumps(out, indent=1))
         return 0
